@@ -92,9 +92,11 @@ def random_configs(rnd, n):
         nin = max(gen.ARITY[names[lut].upper()], rnd.randint(1, 4))
         wins = []
         mono = rnd.random() < 0.7
+        dense = rnd.choice([0, 0, 5, 7])      # half of the configurations crowd their edges near time 0
         for i in range(nin):
             k = rnd.randint(0, 5)
-            ts = [rnd.randint(0, 12) for _ in range(k)]
+            tmax = dense if dense else 12
+            ts = [rnd.randint(0, tmax) for _ in range(k)]
             if mono:
                 ts = sorted(set(ts))
             wins.append(([-INF] if rnd.randint(0, 1) else []) + ts + [INF + 1 if rnd.random() < 0.12 else INF])    # some inputs carry an overflow marker
@@ -133,7 +135,7 @@ def records(ck, rnd, motion=False):
             r.update(prim=names.get(lut, '?'), poldep=True, sd=0, sf=1, zs=[], zc=[])
             recs.append(r)
         ncomplete = len(recs)
-    for lut, wins, dls, cap, poldep in random_configs(rnd, ck.pick(6000, 60000)):
+    for lut, wins, dls, cap, poldep in random_configs(rnd, ck.pick(9000, 90000)):
         r = run_kernel(lut, wins, dls, cap)
         r.update(prim=names.get(lut, '?'), poldep=poldep, sd=0, sf=1, zs=[], zc=[])
         if motion:
